@@ -14,6 +14,11 @@
 #define TWO53U (1ULL << 53)
 #define IAX_DOM(p) ((p) > -TWO53 && (p) < TWO53)            /* excludes NaN and infinities; below 2^53 consecutive
                                                                integers are distinct doubles */
+#ifdef C16_SAFETY   /* C16: every double, including NaN, infinities and |p| >= 2^64; functional clauses are then vacuous outside the domain */
+#define IAX_DOM_REQ(p) 1
+#else
+#define IAX_DOM_REQ(p) IAX_DOM(p)
+#endif
 #define IAX_IN(i, n) ((n) == 0 || (i) < (n))
 #define IAX_LE(i, p) ((i) <= TWO53U && (double)(i) <= (p))
 #define IAX_LT(i, p) ((i) <= TWO53U && (double)(i) <  (p))
@@ -35,17 +40,17 @@
 #define IAX_CONTRACT(p, n, m, fn) \
 __CPROVER_requires(MATCH_VALID(m)) \
 __CPROVER_requires(nix_exc == EXC_NONE) \
-__CPROVER_requires(IAX_DOM(p)) \
-__CPROVER_ensures(/*LessOrEqual-sound*/ (m) == PositionMatch_LessOrEqual ==> POST_IAX_LE_SOUND(p, n, __CPROVER_return_value)) \
-__CPROVER_ensures(/*LessOrEqual-largest*/ (m) == PositionMatch_LessOrEqual ==> POST_IAX_LE_MAX(p, n, __CPROVER_return_value, (ndsize_t)ghost_k)) \
-__CPROVER_ensures(/*Less-sound*/ (m) == PositionMatch_Less ==> POST_IAX_LT_SOUND(p, n, __CPROVER_return_value)) \
-__CPROVER_ensures(/*Less-largest*/ (m) == PositionMatch_Less ==> POST_IAX_LT_MAX(p, n, __CPROVER_return_value, (ndsize_t)ghost_k)) \
-__CPROVER_ensures(/*GreaterOrEqual-sound*/ (m) == PositionMatch_GreaterOrEqual ==> POST_IAX_GE_SOUND(p, n, __CPROVER_return_value)) \
-__CPROVER_ensures(/*GreaterOrEqual-smallest*/ (m) == PositionMatch_GreaterOrEqual ==> POST_IAX_GE_MIN(p, n, __CPROVER_return_value, (ndsize_t)ghost_k)) \
-__CPROVER_ensures(/*Greater-sound*/ (m) == PositionMatch_Greater ==> POST_IAX_GT_SOUND(p, n, __CPROVER_return_value)) \
-__CPROVER_ensures(/*Greater-smallest*/ (m) == PositionMatch_Greater ==> POST_IAX_GT_MIN(p, n, __CPROVER_return_value, (ndsize_t)ghost_k)) \
-__CPROVER_ensures(/*Equal-sound*/ (m) == PositionMatch_Equal ==> POST_IAX_EQ_SOUND(p, n, __CPROVER_return_value)) \
-__CPROVER_ensures(/*Equal-found*/ (m) == PositionMatch_Equal ==> POST_IAX_EQ_FOUND(p, n, __CPROVER_return_value, (ndsize_t)ghost_k)) \
+__CPROVER_requires(IAX_DOM_REQ(p)) \
+__CPROVER_ensures(/*LessOrEqual-sound*/ (IAX_DOM(p) && (m) == PositionMatch_LessOrEqual) ==> POST_IAX_LE_SOUND(p, n, __CPROVER_return_value)) \
+__CPROVER_ensures(/*LessOrEqual-largest*/ (IAX_DOM(p) && (m) == PositionMatch_LessOrEqual) ==> POST_IAX_LE_MAX(p, n, __CPROVER_return_value, (ndsize_t)ghost_k)) \
+__CPROVER_ensures(/*Less-sound*/ (IAX_DOM(p) && (m) == PositionMatch_Less) ==> POST_IAX_LT_SOUND(p, n, __CPROVER_return_value)) \
+__CPROVER_ensures(/*Less-largest*/ (IAX_DOM(p) && (m) == PositionMatch_Less) ==> POST_IAX_LT_MAX(p, n, __CPROVER_return_value, (ndsize_t)ghost_k)) \
+__CPROVER_ensures(/*GreaterOrEqual-sound*/ (IAX_DOM(p) && (m) == PositionMatch_GreaterOrEqual) ==> POST_IAX_GE_SOUND(p, n, __CPROVER_return_value)) \
+__CPROVER_ensures(/*GreaterOrEqual-smallest*/ (IAX_DOM(p) && (m) == PositionMatch_GreaterOrEqual) ==> POST_IAX_GE_MIN(p, n, __CPROVER_return_value, (ndsize_t)ghost_k)) \
+__CPROVER_ensures(/*Greater-sound*/ (IAX_DOM(p) && (m) == PositionMatch_Greater) ==> POST_IAX_GT_SOUND(p, n, __CPROVER_return_value)) \
+__CPROVER_ensures(/*Greater-smallest*/ (IAX_DOM(p) && (m) == PositionMatch_Greater) ==> POST_IAX_GT_MIN(p, n, __CPROVER_return_value, (ndsize_t)ghost_k)) \
+__CPROVER_ensures(/*Equal-sound*/ (IAX_DOM(p) && (m) == PositionMatch_Equal) ==> POST_IAX_EQ_SOUND(p, n, __CPROVER_return_value)) \
+__CPROVER_ensures(/*Equal-found*/ (IAX_DOM(p) && (m) == PositionMatch_Equal) ==> POST_IAX_EQ_FOUND(p, n, __CPROVER_return_value, (ndsize_t)ghost_k)) \
 __CPROVER_ensures(/*no-exception*/ nix_exc == EXC_NONE) \
 IAX_COVERS(m) \
 NIX_CANARY(fn) __CPROVER_assigns()
